@@ -220,4 +220,41 @@ C04_AvailReq(in, pr) ==
 (***************************************************************************)
 C06_AvailReq(app) == app.provides /\ app.sync /\ app.static
 C07_AvailReq(app) == app.selects
+
+(***************************************************************************)
+(* C09  An entraited trait definition is preserved.                        *)
+(*  i / o : the user's trait and the emitted trait of the same name, each  *)
+(*  [name, vis, unsafe, generics, where, supers, attrs: Seq([text, kind]), *)
+(*   methods: Seq([name, attrs, shape (signature without `async` and       *)
+(*   return type), async, ret, futout, futsend, futpath, default]),        *)
+(*   assoc: Seq(text)]                                                     *)
+(*  The macro may ADD attributes it owns (mock derivations, its own nested *)
+(*  attribute, a re-applied async_trait) and may rewrite                   *)
+(*  `async fn m(..) -> R` into `fn m(..) -> impl Future<Output = R> [+ Send]`. *)
+(***************************************************************************)
+OwnedKinds == {"unimock", "mockall", "entrait", "async_trait"}
+IsSubseq(a, b) == \E f \in [1..Len(a) -> 1..Len(b)] : (\A x, y \in 1..Len(a) : x < y => f[x] < f[y]) /\ (\A x \in 1..Len(a) : b[f[x]] = a[x])
+Texts(attrs) == [k \in DOMAIN attrs |-> attrs[k].text]
+C09_MethodOK(mi, mo) ==
+  /\ mi.name = mo.name /\ mi.shape = mo.shape /\ mi.attrs = mo.attrs
+  /\ \/ (mi.async = mo.async /\ mi.ret = mo.ret)                                        \* kept as written
+     \/ (mi.async /\ ~mo.async /\ mo.futpath = "::core::future::Future"                  \* the documented rewrite
+         /\ mo.futout = (IF mi.ret = "" THEN "()" ELSE mi.ret))
+C09_Conj == {"expands", "name-vis", "unsafe", "generics", "supertraits", "where", "attrs-kept", "only-owned-attrs-added",
+             "methods", "default-bodies", "assoc-types"}
+C09_Holds(c, i, o) ==
+  CASE c = "expands"     -> o.found
+    [] c = "name-vis"    -> o.found => i.name = o.name /\ i.vis = o.vis
+    [] c = "unsafe"      -> o.found => i.unsafe = o.unsafe
+    [] c = "generics"    -> o.found => i.generics = o.generics
+    [] c = "supertraits" -> o.found => i.supers = o.supers
+    [] c = "where"       -> o.found => i.where = o.where
+    [] c = "attrs-kept"  -> o.found => IsSubseq(Texts(i.attrs), Texts(o.attrs))
+    [] c = "only-owned-attrs-added" -> o.found =>
+          \A k \in DOMAIN o.attrs : (\E j \in DOMAIN i.attrs : i.attrs[j].text = o.attrs[k].text) \/ o.attrs[k].kind \in OwnedKinds
+    [] c = "methods"     -> o.found => /\ Len(i.methods) = Len(o.methods)
+                                       /\ \A k \in DOMAIN i.methods : C09_MethodOK(i.methods[k], o.methods[k])
+    [] c = "default-bodies" -> o.found /\ Len(i.methods) = Len(o.methods) => \A k \in DOMAIN i.methods : i.methods[k].default = o.methods[k].default
+    [] c = "assoc-types" -> o.found => i.assoc = o.assoc
+C09_Fail(i, o) == { c \in C09_Conj : ~C09_Holds(c, i, o) }
 =============================================================================
